@@ -848,3 +848,42 @@ func tripCount(lit *ana.Term) (int64, bool) {
 	}
 	return 0, false
 }
+
+// writesOutsideInit counts the stores (to the variable or any element / field
+// of it) and possibly-mutating calls on package variable name made by
+// functions of the package other than the package initialiser.
+func (c *Ctx) writesOutsideInit(rel, name string) (int, *ssa.Global) {
+	pk := c.P.Pkg(rel)
+	if pk == nil {
+		return -1, nil
+	}
+	g, ok := pk.Members[name].(*ssa.Global)
+	if !ok {
+		return -1, nil
+	}
+	n := 0
+	for _, fn := range c.P.RepoFuncs(rel) {
+		if fn.Pkg != pk || fn.Synthetic == "package initializer" {
+			continue
+		}
+		b := ana.NewBuilder(c.P, fn)
+		for _, blk := range fn.Blocks {
+			for _, ins := range blk.Instrs {
+				switch x := ins.(type) {
+				case *ssa.Store:
+					if globalRoot(b, x.Addr) == g {
+						n++
+					}
+				case ssa.CallInstruction:
+					cc := x.Common()
+					for i, a := range cc.Args {
+						if globalRoot(b, a) == g && b.MayMutateOperand(cc, i) {
+							n++
+						}
+					}
+				}
+			}
+		}
+	}
+	return n, g
+}
